@@ -8,7 +8,14 @@ import time
 
 from . import paths
 
-ENV = dict(os.environ, CARGO_NET_OFFLINE='true')
+# variables through which the environment could pass options to coqc/make (-type-in-type, another coqc, ...) are dropped
+_COQ_VARS = ('COQEXTRAFLAGS', 'COQFLAGS', 'COQLIBS', 'COQC', 'COQDEP', 'COQTOP', 'COQCHK', 'OPT', 'COQDOCEXTRAFLAGS',
+             'COQMF_OTHERFLAGS', 'COQPATH', 'OCAMLPATH_EXTRA', 'MAKEFLAGS', 'MFLAGS')
+ENV = {k: v for k, v in dict(os.environ, CARGO_NET_OFFLINE='true').items() if k not in _COQ_VARS}
+
+
+def clean_env():
+    return dict(ENV)
 
 
 class BuildError(Exception):
